@@ -59,9 +59,9 @@ class C01(core.Prop):
     def shapes(self, tier):
         out = []
         if tier == 'quick':
-            mols, max_frag, max_pair, nopt, cap = pl.MOLS_SMALL + ['c1ccc2ccccc2c1'], 3, 2, 2, 12       # + one fused aromatic system
+            mols, max_frag, max_pair, nopt, cap = pl.MOLS_SMALL + ['c1ccc2ccccc2c1', 'CC1=CCC1'], 3, 2, 2, 12       # + one fused aromatic system, one ring with a double bond
         else:
-            mols, max_frag, max_pair, nopt, cap = pl.MOLS_SMALL + pl.MOLS_MEDIUM + pl.MOLS_LARGE, 4, 3, 4, 60
+            mols, max_frag, max_pair, nopt, cap = pl.MOLS_SMALL + pl.MOLS_MEDIUM + pl.MOLS_LARGE + ['CC1=CCC1', 'CC1=CCCC1', 'C1=CCC=C1C'], 4, 3, 4, 60
         for smi in mols:
             parts = pl.cases_for(smi, max_frag=max_frag, max_cut_pair=max_pair)
             parts = [p for p in parts if p[0]]          # at least one cut
@@ -76,6 +76,9 @@ class C01(core.Prop):
                 if 'c' in smi or 'n' in smi:
                     # cuts through aromatic bonds written with the aromatic order symbol ':'
                     out.append(pl.make_case(smi, cut, comps, dict(OPT_VARIANTS[0], colon=True)))
+                # descriptors in parentheses of their own, C([$])C, directly after the atom or after its last closed branch
+                if tier != 'quick' or len(out) % 2:
+                    out.append(pl.make_case(smi, cut, comps, dict(OPT_VARIANTS[0], paren=True, after_branch=bool(len(out) % 4 < 2))))
                 # (pipeline.VARIANTS: constructor x driver x earlier use of the library in the same process)
                 if len(comps) >= 2:
                     nv = len(pl.VARIANTS) - 1
@@ -128,5 +131,5 @@ class C01(core.Prop):
 PROP = C01()
 
 # shape families added after the first complete pass (DESIGN 8.6-8.11); appended to the bounds written into the evidence
-BOUNDS_ADDED = "; plus (sessions 2): cuts through aromatic bonds written with ':', one fused aromatic system, cubane cut into two faces (quadruple base edge), and for every case with >= 2 fragments one of pipeline.VARIANTS (from_graph with the base graph built in reverse/rotated order, from_fragment_dicts, resolve_all, resolve_iter, earlier unrelated use of the library)"
+BOUNDS_ADDED = "; plus (sessions 2): cuts through aromatic bonds written with ':', one fused aromatic system, cubane cut into two faces (quadruple base edge), and for every case with >= 2 fragments one of pipeline.VARIANTS (from_graph with the base graph built in reverse/rotated order, from_fragment_dicts, resolve_all, resolve_iter, earlier unrelated use of the library), a ring with a double bond (the double bond as ring-closure bond in some renderings), descriptors in parentheses of their own directly after the atom or after its last closed branch"
 PROP.BOUNDS = {k: v + BOUNDS_ADDED for k, v in PROP.BOUNDS.items()}
